@@ -39,7 +39,7 @@ Definition run_C11 (_ : pystr -> pystr) (t : term) : term :=
     match map_opt get_str el, map_opt get_str ll, map_opt c11_cls cl with
     | Some early, Some late, Some cs =>
       if negb (c11_admissible early late cs) then terr "C11: class chain cannot be printed / executed"
-      else tcon "Res" (map (fun v => TList (map term_of_clsobs (run_chain v early [] cs)))
+      else tcon "Res" (map (fun v => TList (map term_of_clsobs (run_chain v early [] [] cs)))
                            [ as_property; {| v_nt := false; v_fwd := true |}; {| v_nt := true; v_fwd := false |}; as_code ])
     | _, _, _ => terr "C11: cannot decode"
     end
